@@ -372,4 +372,16 @@ example :
     dropTy m0 t 0 = [(.string, 0), (.list, 3)] ∧ dropTy m1 t 0 = [(.string, 0)] := by
   exact ⟨rfl, rfl⟩
 
+/-- **`reference_types_are_pointers`** — `is_reference_type` (which decides
+    whether `Lowerer::location` hands out a variable or a pointer, and whether a
+    value is moved by `memcpy` or by a register write) and `lower_type` agree:
+    a type is by-reference iff it is lowered to `Pointer`; a by-value type is
+    lowered to an integer / float scalar, or to nothing when it is zero-sized. -/
+theorem reference_types_are_pointers (t : Ty) :
+    (isReferenceType t = some true ↔ lowerType t = .ok (some .pointer)) ∧
+    (isReferenceType t = some false →
+      lowerType t = .ok none ∨ (∃ s, lowerType t = .ok (some (.int s))) ∨
+        (∃ s, lowerType t = .ok (some (.float s)))) :=
+  reference_iff_pointer t
+
 end RotoV.C02
